@@ -76,7 +76,7 @@ UNIT = {
 NOT_DECIDED = {
     'C13': [
         'R8: RefCell run-time borrow checking is dropped (no BorrowMutError is assumed)',
-        'push/pop balance of the closures that push temporary contexts (build_context, build_filter, for/some/every handlers, function invocation) - not yet under contract',
+        'push/pop balance of the closures that push temporary contexts: unit purity',
         'parser-side scope bracketing; repeatability across interleaved evaluations',
     ],
     'C01': ['name resolution through the scope is decided for Scope::get_entry / search_deep (innermost binding wins); that evaluators call them with the right names is closure wiring'],
